@@ -29,6 +29,7 @@ import (
 	compact_float "github.com/kstenerud/go-compact-float"
 	compact_time "github.com/kstenerud/go-compact-time"
 	"github.com/kstenerud/go-concise-encoding/ce/events"
+	"github.com/kstenerud/go-concise-encoding/configuration"
 	"github.com/kstenerud/go-concise-encoding/internal/common"
 )
 
@@ -97,11 +98,22 @@ func makeGeneratorDescs(
 	}
 }
 
-func newStructBuilderGenerator(getBuilderGeneratorForType BuilderGeneratorGetter, dstType reflect.Type) BuilderGenerator {
+func newStructBuilderGenerator(getBuilderGeneratorForType BuilderGeneratorGetter, dstType reflect.Type, fieldNameStyle configuration.FieldNameStyle) BuilderGenerator {
 	nameBuilderGenerator := getBuilderGeneratorForType(reflect.TypeOf(""))
 	generatorDescs := make(map[string]*structBuilderGeneratorDesc)
 
 	makeGeneratorDescs(getBuilderGeneratorForType, dstType, []int{}, generatorDescs)
+
+	// Also map the names as the iterator writes them under the configured field
+	// name style, or an exact (case sensitive) match could never find them.
+	if fieldNameStyle == configuration.FieldNameSnakeCase {
+		for _, desc := range generatorDescs {
+			styledName := common.CamelCaseToSnakeCase(desc.field.Name)
+			if _, exists := generatorDescs[styledName]; !exists {
+				generatorDescs[styledName] = desc
+			}
+		}
+	}
 
 	// Make lowercase mappings as well in case we later do case-insensitive field name matching
 	for _, desc := range generatorDescs {
